@@ -2,7 +2,7 @@ SPECIFICATION TSpec
 CONSTANTS
   NK = 13
   NV = 5
-  BigKeys = {9}
+  BigKeys = {10}
   BigVals = {5}
   MaxBatch = 0
 INVARIANTS TypeOK NoOversizeStored
